@@ -1067,8 +1067,21 @@ func (sc *c16BGV) runE2S(d *c16Deploy, ct *rlwe.Ciphertext, m []uint64, inNoise 
 		ctx.Count("probe.exactness-budget-skipped", 1)
 		return true
 	}
-	// shares back to an encryption at the maximum level
+	// shares back to an encryption: at the maximum level or, one run in three, at a level below it
+	// (the level of the common reference polynomial decides), into a receiver allocated at that
+	// level or, one time in two, at another one (GetEncryption gives the receiver the level of
+	// the aggregate)
 	maxLevel := params.MaxLevelQ()
+	recvLevel := maxLevel
+	if maxLevel > 0 && ch.Chance("s2e-below-max", 1, 3) {
+		maxLevel = ch.Draw("s2e-level", maxLevel)
+		ctx.Count("probe.s2e-below-max", 1)
+	}
+	if ch.Bool("s2e-receiver-at-its-level") {
+		recvLevel = maxLevel
+	} else if recvLevel = ch.Draw("s2e-recv-level", params.MaxLevelQ()+1); recvLevel != maxLevel {
+		ctx.Count("probe.s2e-receiver-other-level", 1)
+	}
 	crsKey := make([]byte, 32)
 	core.NewXoshiro(uint64(ch.Draw("crs-key", 1<<16))).Fill(crsKey)
 	crs, _ := sampling.NewKeyedPRNG(crsKey)
@@ -1105,7 +1118,7 @@ func (sc *c16BGV) runE2S(d *c16Deploy, ct *rlwe.Ciphertext, m []uint64, inNoise 
 	if !ok {
 		return false
 	}
-	out := bgv.NewCiphertext(bp, 1, maxLevel)
+	out := bgv.NewCiphertext(bp, 1, recvLevel)
 	*out.MetaData = *ct.MetaData
 	var gerr error
 	pk, site, msg = core.Protect(func() { gerr = s2e0.GetEncryption(*agg2.(*multiparty.KeySwitchShare), crp, out) })
@@ -1117,7 +1130,7 @@ func (sc *c16BGV) runE2S(d *c16Deploy, ct *rlwe.Ciphertext, m []uint64, inNoise 
 		return false
 	}
 	if out.Level() != maxLevel {
-		ctx.Fail("metadata", "ShareToEnc|output-level", "re-encryption is at level %d, maximum level is %d", out.Level(), maxLevel)
+		ctx.Fail("metadata", "ShareToEnc|output-level", "re-encryption is at level %d, the aggregate and the reference polynomial are at level %d", out.Level(), maxLevel)
 		return false
 	}
 	b2 := new(big.Int).Mul(d.shareB, big.NewInt(int64(d.n)))
